@@ -15,6 +15,7 @@ PROP_MODULES = {
     "C05": ["contracts.c05", "contracts.c05_bounded"],
     "C13": ["contracts.c13"],
     "C14": ["contracts.c14", "contracts.c14_bounded", "contracts.c08"],
+    "C07": ["contracts.c07", "contracts.c07_bounded", "contracts.c10"],
     "C08": ["contracts.c08"],
     "C16": ["contracts.c16", "contracts.c16_bounded"],
     "C10": ["contracts.c10"],
@@ -42,13 +43,7 @@ def finding_matches(f, rec):
 
 
 def smt2_of(rec):
-    try:
-        s = z3.Solver()
-        for a in rec.query:
-            s.add(a)
-        return s.to_smt2()
-    except Exception as e:      # pragma: no cover
-        return f"; to_smt2 failed: {e}"
+    return rec.result.get("smt2", "")
 
 
 def run_property(prop, tier="quick", seed=0, only=None, verbose=False):
@@ -66,20 +61,44 @@ def run_property(prop, tier="quick", seed=0, only=None, verbose=False):
     inventories = [b for b in api.REGISTRY["inventory"] if prop in b.props and (only is None or only in b.id)]
 
     records, outside, stats_all, functions = [], [], {}, set()
+    tasks = []
     for c in contracts:
-        try:
-            recs, st = api.explore_contract(c)
-        except OutsideSubset as o:
-            recs, st = [], {"paths": 0, "outside": [f"{c.id}: {o}"], "returns": 0, "raises": 0, "functions": set()}
-        records += recs
-        stats_all[c.id] = {k: (sorted(v) if isinstance(v, set) else v) for k, v in st.items()}
-        outside += st["outside"]
-        functions |= set(st["functions"]) | {c.target}
-        if st["paths"] == 0 and not st["outside"]:
-            outside.append(f"{c.id}: vacuous - no feasible path (contradictory precondition?)")
+        for case in c.cases:
+            tasks.append(((c.id, repr(case)), "contract", c, case))
     for l in lemmas:
-        records += api.lemma_records(l)
-    api.discharge_records(records, budget)
+        tasks.append(((l.id, None), "lemma", l, None))
+    by_id = {c.id: c for c in contracts}
+    by_id.update({l.id: l for l in lemmas})
+    results = api.run_parallel(tasks, budget, task_deadline_s=300 if tier == "quick" else 1800)
+
+    class Rec:
+        pass
+    for (oid, case), res in results.items():
+        owner = by_id[oid]
+        if res.get("crash"):
+            print(res["crash"], file=sys.stderr)
+            raise RuntimeError(f"worker for {oid}[{case}] crashed")
+        if res.get("timeout"):
+            outside.append(f"{oid}[{case}]: exploration exceeded its deadline")
+            continue
+        st = res["stats"]
+        agg = stats_all.setdefault(oid, {"paths": 0, "outside": [], "returns": 0, "raises": 0, "loop_steps": 0})
+        for k in ("paths", "returns", "raises", "loop_steps"):
+            agg[k] += st.get(k, 0) or 0
+        agg["outside"] += st.get("outside", [])
+        outside += st.get("outside", [])
+        functions |= set(st.get("functions", []))
+        if isinstance(owner, api.Contract):
+            functions.add(owner.target)
+            if st.get("paths", 0) == 0 and not st.get("outside"):
+                outside.append(f"{oid}[{case}]: vacuous - no feasible path (contradictory precondition?)")
+        for d in res["records"]:
+            r = Rec()
+            r.id, r.kind, r.label, r.function, r.path, r.result = d["id"], d["kind"], d["label"], d["function"], d["path"], d["result"]
+            r.contract, r.by_solver, r.goal, r.query = owner, d["by_solver"], d.get("goal", ""), None
+            records.append(r)
+    # portfolio on what z3 5.1 left open
+    solve.portfolio_texts({r.id: r.result for r in records if r.result["status"] == "unknown" and r.result.get("smt2")}, budget)
 
     # ---- verdicts
     kf = load_known_findings()
@@ -217,8 +236,8 @@ def run_property(prop, tier="quick", seed=0, only=None, verbose=False):
             "known_findings_hit": [f["what"] for f, _ in known_hits],
             "bounded": bounded_out,
             "inventory": inv_out,
-            "samples": [{"id": r.id, "goal": str(z3.simplify(z3.Not(r.query[-1])))[:400]} for r in [x for x in records if x.query][:6]],
-            "discharged_by_solver": len([r for r in proved if r.query]), "discharged_by_evaluation": len([r for r in proved if not r.query]),
+            "samples": [{"id": r.id, "goal": r.goal} for r in [x for x in records if x.by_solver][:6]],
+            "discharged_by_solver": len([r for r in proved if r.by_solver]), "discharged_by_evaluation": len([r for r in proved if not r.by_solver]),
             "trusted_base": sorted(set(TRUSTED_COMMON + [a for c in contracts for a in getattr(c, "assumed", [])] + [a for l in lemmas for a in getattr(l, "assumed", [])])),
             "explanation": EXPLANATION,
             "evaluations": sum(b.get("evaluations", 0) for b in bounded_out) + len(records),
